@@ -25,6 +25,9 @@ def evStr : Ev → String
   | .qreset => "QX"
   | .freed => "F"
   | .fault => "FAULT"
+  | .rset => "Z"
+  | .mail => "M"
+  | .rcpt => "P"
 
 structure Faults where
   env : Env
@@ -97,6 +100,14 @@ def handle (op : String) (args : List String) : Option String :=
         let out := session f.env (s.length + 3) st
         if out.log.isEmpty then "-" else " ".intercalate (out.log.map evStr))
     | _, _, _, _ => "bad-op")
+  | "chk_rx", "3" :: txs :: "|" :: toks =>
+    -- transactions separated by '/', chunks by ','
+    some (match (if txs = "none" then some [] else
+        (txs.splitOn "/").mapM (fun t => if t = "-" then some [] else (t.splitOn ",").mapM fromHex)) with
+    | some ts =>
+      if toks.any (·.startsWith "FAULT") then "fails memory-safety-or-crash"
+      else Spec.Bdat.checkRxSeq ts (toks.map rxTok)
+    | none => "bad-op")
   | "chk_rx", wf :: chunks :: "|" :: toks =>
     some (match wf.toNat?, (if chunks = "-" then some [] else (chunks.splitOn ",").mapM fromHex) with
     | some wf, some cs =>
